@@ -259,6 +259,42 @@ def type_pairs(ctx):
                                                         "spec_allows": want_ok, "parse": res})
 
 
+def flow_object_pairs(ctx):
+    """The logical type requested through an explicit flow OBJECT (SerializerOptions.flow): the header states the flow's
+    logical type, and a flow whose type the specification forbids for the stream class is refused."""
+    from pyjelly.serialize import flows as F
+    classes = {1: "TripleStream", 2: "QuadStream", 3: "GraphStream"}
+    flows = [(F.FlatTriplesFrameFlow, {}), (F.FlatQuadsFrameFlow, {}), (F.GraphsFrameFlow, {}), (F.DatasetsFrameFlow, {}),
+             (F.GraphsFrameFlow, {"logical_type": 13}), (F.DatasetsFrameFlow, {"logical_type": 114}),
+             (F.DatasetsFrameFlow, {"logical_type": 14})]
+    for phys in classes:
+        for fcls, kw in flows:
+            for opt_logical in (0, pj.FLAT_LOGICAL[phys]):
+                for integ in ("generic", "rdflib"):
+                    flow = fcls(**kw)
+                    fl = int(flow.logical_type)
+                    cfg = {"integration": integ, "physical": phys, "logical": opt_logical, "delimited": True, "preset": (8, 8, 8)}
+                    want_ok = spec_compatible(phys, fl)
+                    try:
+                        st = pj.make_stream(cfg, pj.make_options(cfg, flow=flow))
+                        got_ok, written = True, int(st.stream_types.logical_type)
+                    except Exception:  # noqa: BLE001
+                        got_ok, written = False, None
+                    ctx.observe("type-pairs-construction")
+                    ctx.observe("type-pairs-through-flow-object")
+                    if got_ok != want_ok:
+                        ctx.violation({"clause": "type-pair-construction", "pair": [phys, fl], "cfg": cfg, "flow": fcls.__name__,
+                                       "summary": f"{classes[phys]} given an explicit {fcls.__name__}(logical type {fl}) is "
+                                                  f"{'accepted' if got_ok else 'rejected'}; the specification "
+                                                  f"{'allows' if want_ok else 'forbids'} the pair ({phys},{fl})"})
+                    elif got_ok and written != fl:
+                        ctx.violation({"clause": "flow-logical-type-not-declared", "pair": [phys, fl], "cfg": cfg, "flow": fcls.__name__,
+                                       "summary": f"{classes[phys]} given an explicit {fcls.__name__}(logical type {fl}) declares "
+                                                  f"logical type {written} in its header"})
+                    ctx.case(("flow-pair", phys, fcls.__name__, fl, opt_logical, integ), True,
+                             sample={"part": "type-pair-through-flow-object", "physical": phys, "flow": fcls.__name__, "flow_logical": fl})
+
+
 # ------------------------------------------------------------------ (3) limits
 
 def limits(ctx):
@@ -372,6 +408,7 @@ def strict_matrix(ctx):
 def run_shard(ctx):
     if ctx.shard == 0:
         type_pairs(ctx)
+        flow_object_pairs(ctx)
         limits(ctx)
         strict_matrix(ctx)
         ctx.extra["tables_complete"] = True
@@ -400,8 +437,9 @@ def replay(w: dict):
         def inconc(self, *a):
             pass
     c = _Ctx()
-    if w["clause"].startswith("type-pair"):
+    if w["clause"].startswith("type-pair") or w["clause"] == "flow-logical-type-not-declared":
         type_pairs(c)
+        flow_object_pairs(c)
     elif w["clause"].startswith("limit"):
         limits(c)
     elif w["clause"] in ("strict-matrix", "non-strict-rejects", "logical-type-influences-parse"):
